@@ -119,7 +119,8 @@ CHECKS = {
               'part x 4 fractional digits with the exact result of each function for each digit count and of x%. Binding: every grid decimal is '
               'supplied to the real pipeline as an override (all), workbook cell, literal, with the digit count from a cell (samples) and through '
               'the public file path; results are compared in exact decimal mode (the shortest repr of the returned double must be the exact decimal '
-              'result); random decimals up to 9 significant digits are recomputed by TLC from recorded events (Trace_C16).'),
+              'result); random decimals up to 9 significant digits are recomputed by TLC from recorded events (Trace_C16), and decimals of 10 to 15 significant '
+              'digits (ties, runs of nines, neighbours of grid points) by the digit-level operators of XlRoundingBig (Trace_C16B; AgreeSmall ties them to XlRounding).'),
         design_ref='§7 C16',
         note=NOTE_COMMON + 'TLC integers are 32-bit: grid |x| < 1235 with 4 fractional digits, random decimals <= 9 significant digits; the nearest-double clause is carried by the abstraction function (repr round trip).',
         technique='TLA+ exact-decimal oracle with TLC-checked laws, TLC-enumerated grid replayed, trace validation'),
